@@ -28,7 +28,7 @@ func main() {
 	if mc.IsWorker() {
 		mc.ServeWorker(func(j mc.BFSJob) mc.ExecResult { return chainops.Exec(j.Tag, j.Path) })
 	}
-	r := mc.Start("C12", "model_checking", 85*time.Second, 27*time.Minute)
+	r := mc.Start("C12", "model_checking", 80*time.Second, 27*time.Minute)
 	r.Assumptions = chainops.Assumptions("C12")
 	if r.Replay != "" {
 		chainops.DoReplay(r)
